@@ -45,6 +45,11 @@ def build(cont, items, k, prefix, dtype):
         return SignatureArray(arrs, ks, dtype=np.dtype(dtype))
     if cont == 'list':
         return SignatureList(arrs, ks, dtype=np.dtype(dtype))
+    if cont == 'window':
+        # a zero-copy window into a larger collection (shared values array, bounds[0] != 0)
+        pad = [np.array([1, 2], dtype=dtype), np.array([3], dtype=dtype)]
+        full = SignatureArray(pad + arrs + pad, ks, dtype=np.dtype(dtype))
+        return SignatureArray.from_arrays(full.values, full.bounds[2:len(arrs) + 3], ks)
     if cont == 'annotated':
         return AnnotatedSignatures(SignatureArray(arrs, ks, dtype=np.dtype(dtype)), [f'id{j}' for j in range(len(items))])
     if cont == 'hdf5':
@@ -304,14 +309,16 @@ class Indexing(Fam):
 
     def inputs(self, ctx):
         nmax = 4 if ctx.tier == 'quick' else 5
-        self.rule = (f'collections of length 0..{nmax} (array / list / annotated wrapper / HDF5 file), three (k, prefix, dtype) variants incl. a '
+        self.rule = (f'collections of length 0..{nmax} (array / list / annotated wrapper / HDF5 file / zero-copy window with bounds[0] != 0), three (k, prefix, dtype) variants incl. a '
                      f'dtype wider than the natural one; every int in -n-2..n+1, every slice with start/stop in a range or None and step in '
                      f'+-1..3/None/0, every int list of length <=3 over -n-1..n (list, int8, int16, int64, uint64 arrays), every mask of '
                      f'length n-1..n+1, ill-typed indices; non-trivial = n >= 2')
         for n in range(0, nmax + 1):
             items = make_items(n)
-            for ci, cont in enumerate(['array', 'list', 'hdf5', 'annotated']):
+            for ci, cont in enumerate(['array', 'list', 'hdf5', 'annotated', 'window']):
                 if cont in ('hdf5', 'annotated') and n == 0:
+                    continue
+                if cont == 'window' and n % 2 == 0 and ctx.tier == 'quick':
                     continue
                 for vi, (k, prefix, dtype) in enumerate(KS):
                     if vi and (n + ci) % 2:
@@ -429,7 +436,7 @@ class Equality(Fam):
     def inputs(self, ctx):
         base = make_items(3)
         fam = []
-        for cont in ('array', 'list', 'hdf5', 'annotated'):
+        for cont in ('array', 'list', 'hdf5', 'annotated', 'window'):
             fam.append(dict(cont=cont, items=base, k=8, prefix='ATG', dtype='u2'))
         fam.append(dict(cont='array', items=base, k=8, prefix='ATG', dtype='u8'))
         fam.append(dict(cont='list', items=base, k=8, prefix='ATG', dtype='i8'))
